@@ -203,7 +203,7 @@ package gogen
 //@ func (*CodeBuilder).endFuncBody
 //@ prop C16
 //@ assigns p.current, p.stk.data, when(p.current.label != nil, p.comments), when(p.current.label != nil, p.current.label.Stmt), when(p.current.label != nil, elems(p.current.stmts)), when(p.current.label != nil, p.pkg.commentedStmts), when(p.current.label != nil, map(p.pkg.commentedStmts))
-//@ requires p.pkg != nil
+//@ requires p.pkg != nil && mforall(k, p.current.labels, p.current.labels[k] != nil)
 //@ requires 0 <= p.current.base && p.current.base <= len(p.stk.data)
 //@ ensures len(p.stk.data) == old(p.current.base)
 //@ ensures forall(i, 0, len(p.stk.data), p.stk.data[i] == old(p.stk.data[i]))
@@ -419,7 +419,7 @@ package gogen
 
 //@ func (*Func).End
 //@ prop C10 C16
-//@ requires cb != nil && cb.pkg != nil && p.Func != nil && StkWf(cb)
+//@ requires cb != nil && cb.pkg != nil && p.Func != nil && StkWf(cb) && mforall(k, cb.current.labels, cb.current.labels[k] != nil)
 //@ requires imp(p.arity1 == 0, typeis(p.Type(), *types.Signature) && cb.current.label == nil)
 //@ assumecall isTerminating: WfStmt(arg_s)
 //@ ghostset handleCodeError[msg == "missing return"] missingReturn
